@@ -6,6 +6,7 @@ package parser
 import (
 	"github.com/jotaen/klog/klog"
 	"github.com/jotaen/klog/klog/parser/txt"
+	"unicode/utf8"
 )
 
 func parse(block txt.Block) (klog.Record, []txt.Error) {
@@ -117,7 +118,7 @@ func parse(block txt.Block) (klog.Record, []txt.Error) {
 		// Check for correct indentation.
 		entry := indentator.NewIndentedParseable(l, 1)
 		if entry == nil || txt.IsSpaceOrTab(entry.Peek()) {
-			errs = append(errs, ErrorIllegalIndentation().New(block, nr(lines), 0, len(l.Text)))
+			errs = append(errs, ErrorIllegalIndentation().New(block, nr(lines), 0, utf8.RuneCountInString(l.Text)))
 			break
 		}
 
